@@ -5,6 +5,7 @@ import VyxalModel.Model.Strings
 import VyxalModel.Model.Transpile
 import VyxalModel.Model.Placed
 import VyxalModel.Model.WFPy
+import VyxalModel.Model.Balance
 import VyxalModel.Model.PyDump
 import VyxalModel.Gen.Elements
 import VyxalModel.Gen.Modifiers
@@ -47,9 +48,10 @@ def placedCmd (src : List Nat) : String :=
   | .ok tree =>
     let p := if placedL false false tree then "T" else "F"
     let v := if vtokL tree then "T" else "F"
+    let b := if bplL .plain tree then "T" else "F"
     match transpileAst (genEnv false) tree with
-    | .ok py => s!"placed={p} vtok={v} wf={if PyAst.wfL false false py then "T" else "F"}"
-    | .error e => s!"placed={p} vtok={v} wf=ERR {showTErr e}"
+    | .ok py => s!"placed={p} vtok={v} bpl={b} wf={if PyAst.wfL false false py then "T" else "F"} bal={if Bal.balancedTop py then "T" else "F"}"
+    | .error e => s!"placed={p} vtok={v} bpl={b} wf=ERR {showTErr e}"
 
 def parseIntS (s : String) : Int := s.toInt?.getD 0
 def parseOptInt (s : String) : Option Int := if s == "N" then none else s.toInt?
